@@ -856,6 +856,20 @@ PROPS["C08"]["not_covered"] = [
     "ToJsonCompact, Display, HasCfg",
 ]
 
+# ---- C24 after the trust reduction of unit callgraph (final chain and node lookup verified) --------------------------
+PROPS["C24"]["assumptions"] = [
+    "shim/callgraph.rs contracts of petgraph 0.6 (neighbors_directed, edges_directed: every entry is an edge at the node in the given direction and every such edge has an entry; no order, no multiplicity assumed; EdgeReference::id; Index<EdgeIndex> / Index<NodeIndex> return the edge / node weight, 'the edge / node exists' is a PROVED precondition at every `callgraph[..]`; node_indices yields 0..node_count ascending; node / edge indices are u32; edges connect existing nodes) and std BTreeSet::{new, insert, contains, iter} (iter: every visited item is an element, every element is visited; no order, no multiplicity assumed), written from their documentation",
+    "R9: the final `A.iter().filter_map(CLOSURE).collect()` -> the closure kept as a closure (verbatim body, verified header), called once per element of A, its Some results inserted into a new BTreeSet; what the chain computes is proved, not assumed",
+    "R9: `callgraph.node_indices().find(|node| BODY).unwrap_or_else(|| panic!(..))` -> a flag loop over the node indices in ascending order evaluating BODY verbatim up to the first true; the panic for a tid that labels no node diverges (R5), not claimed",
+    "derive(PartialEq, Eq, Clone) of Tid restated in contracts/callgraph.vc: == is specification equality, clone returns an equal Tid",
+] + [a for a in PROPS["C24"]["assumptions"] if a.startswith(("the type alias CallGraph", "64-bit target", "shim/callgraph_build.rs", "HYPOTHESES vstd", "R9: BTreeMap keys()", "PRECONDITION cgb_pre"))]
+PROPS["C24"]["level_note"] = PROPS["C24"]["level_note"].replace(
+    "Of 'exactly', one step of the query is assumed, not proved: the final `.iter().filter_map(..).collect()` is an R9 substitution whose "
+    "contract is 'the tids of the edges contained in both edge sets'. ",
+    "The final filter_map chain and the node lookup of the query are VERIFIED (their closures are extracted verbatim; `callgraph[*edge]` / `callgraph[*node]` are "
+    "proved to index existing edges / nodes): nothing of the property's word 'exactly' is assumed any more. ").replace(
+    "std BTreeSet::new/insert as a Set", "std BTreeSet::new/insert/contains/iter as a Set")
+
 
 def twin_for(unit, label):
     for frag, twin in TWINS.get(unit, []):
